@@ -406,7 +406,7 @@ pub fn op_strategy(p: &Profile, cfg: &Config) -> BoxedStrategy<Op> {
             6 => (proptest::sample::select(vec!["proc.new.after_policy_add", "proc.new.after_store_insert", "proc.new.victim", "proc.update", "proc.delete.after_policy_remove"]), Just(Op::ProcInsert)),
             3 => (proptest::sample::select(vec!["remove.after_store_remove", "remove.before_store_remove"]), (0..nk).prop_map(|k| Op::Remove { k })),
             3 => (proptest::sample::select(vec!["insert.after_store_update", "insert.before_store_update"]), (0..nk, cost_strategy(cfg.max_cost, internal), ttl_strategy(p.ttl_pct), tag_strategy(cfg.max_cost, internal)).prop_map(|(k, cost, ttl, tag)| Op::Insert { k, cost, ttl, tag })),
-            2 => (proptest::sample::select(vec!["cleanup.after_check", "cleanup.after_policy_remove"]), Just(Op::Tick)),
+            3 => (proptest::sample::select(vec!["cleanup.before_check", "cleanup.after_check", "cleanup.after_policy_remove"]), Just(Op::Tick)),
             // the entry of the store's mutators, whoever calls them (client, processor, sweep)
             4 => (
                 proptest::sample::select(vec!["store.insert.enter", "store.update.enter", "store.remove.enter"]),
@@ -542,7 +542,7 @@ pub fn sweep_race_scenario(p: &Profile) -> BoxedStrategy<Case> {
             let nk = cfg.keys.len() as u64;
             let ops = op_strategy(&p3, &cfg);
             let ttl = proptest::sample::select(vec![1_000_000i64, 500_000_000, NS - 1, NS, 1_500_000_000, 2 * NS]);
-            let site = proptest::sample::select(vec!["cleanup.after_check", "cleanup.after_policy_remove"]);
+            let site = proptest::sample::select(vec!["cleanup.before_check", "cleanup.before_check", "cleanup.after_check", "cleanup.after_policy_remove"]);
             let ttl_any = prop_oneof![Just(0i64), proptest::sample::select(vec![1_000_000i64, NS, 3 * NS])];
             let action = prop_oneof![
                 4 => (0..nk).prop_map(|k| Op::Remove { k }),
